@@ -563,11 +563,18 @@ CHOICE_ENC = Contract(
     id='ber.encoder::ChoiceEncoder.encodeValue[value-object]', file=F, qual='ChoiceEncoder.encodeValue',
     properties=['C01', 'C03', 'C13'],
     params=dict(self=PObj('ChoiceEncoder'),
-                value=PConst(Obj('Choice', {}, {'getComponent': lambda ex, self: CHOSEN}, name='value')), asn1Spec=PConst(None),
+                value=PDerived(lambda ex, env: Obj('Choice', {
+                    # the constraints of the CHOICE type itself (WITH COMPONENTS), evaluated by type.univ
+                    'isInconsistent': ExcV('ValueConstraintError') if ex.choose(__import__('z3').Bool('value.inconsistent'),
+                                                                               'inconsistent') else False},
+                    {'getComponent': lambda ex2, self: CHOSEN}, name='value')), asn1Spec=PConst(None),
                 encodeFun=PConst(FnV(_encode_alternative, 'encodeFun')), options=POptions(defMode=PBool(), maxChunkSize=PInt())),
-    globals={'chosen': CHOSEN},
+    globals={'chosen': CHOSEN, 'inconsistent': __import__('z3').Bool('value.inconsistent')},
     calls={'encodeFun': _encode_alternative},
+    raises={'ValueConstraintError': 'inconsistent'},
     ensures=[
+        # C14: a value that the constraints of the CHOICE type refuse is not encoded
+        ('only-consistent-values-are-encoded', 'not inconsistent'),
         # X.690 8.13: the encoding of a CHOICE value is the encoding of the chosen alternative, nothing added
         ('contents-are-the-chosen-alternative', 'result[0] == last_result("encodeFun") and '
                                                 'last_args("encodeFun")[0] is chosen and last_args("encodeFun")[1] is None'),
